@@ -13,7 +13,7 @@ package objectcore
 // after the sign and the leading zeros ("0" if nothing is left), negative only for '-' and a
 // non-zero value.
 //@ func splitIntString
-//@   property C04
+//@   property C05 C04
 //@   loop 1 invariant signLen(s[0]) <= i && i <= len(s) && neg == (s[0] == 45) && (forall k int :: signLen(s[0]) <= k && k < i ==> s[k] == 48)
 //@   loop 2 invariant start <= i && i <= len(s) && (forall k int :: start <= k && k < i ==> 48 <= s[k] && s[k] <= 57)
 //@   ensures [accepts_exactly_optionally_signed_digit_strings] (err == nil) == (len(s) > 0 && signLen(s[0]) < len(s) && (forall k int :: signLen(s[0]) <= k && k < len(s) ==> 48 <= s[k] && s[k] <= 57))
@@ -22,19 +22,19 @@ package objectcore
 //@   ensures [digits_are_what_follows_sign_and_leading_zeros] err == nil ==> signLen(s[0]) <= start && start <= len(s) && (forall k int :: signLen(s[0]) <= k && k < start ==> s[k] == 48) && ite(start == len(s), len(res1) == 1 && res1[0] == 48, res1 == s[start:] && s[start] != 48)
 
 //@ func compareNormalizedDigits
-//@   property C04
+//@   property C05 C04
 //@   ensures [length_then_lexicographic] normDigits(a) && normDigits(b) ==> result == numCmp(a, b)
 
 // (C04 too: the engine merges the shards' numerically ordered results with this comparator.)
 // Signed comparison from the normalised spellings: different signs decide (a negative value
 // is non-zero), equal signs compare magnitudes, reversed for negatives.
 //@ func compareIntStrings
-//@   property C04
+//@   property C05 C04
 //@   ensures [sign_of_difference] err == nil ==> res0 == ite(na != nb, ite(na, -1, 1), ite(na, 0 - numCmp(da, db), numCmp(da, db)))
 //@   ensures [operands_normalised] err == nil ==> normDigits(da) && normDigits(db) && (na ==> da[0] != 48) && (nb ==> db[0] != 48)
 
 //@ func parseNumericFilterValue
-//@   property C03
+//@   property C05 C03
 //@   opt wide=272
 //@   ensures [normalised] err == nil ==> (res0.neg ==> leval(res0.mag, 0, 4) != 0)
 
